@@ -515,8 +515,17 @@ extern "C" {
   
 #endif
 
+#ifdef MYTH_VERIF
+  /* verification hook: a harness may install a virtual clock
+     (NULL unless installed, so a hooks-on build behaves normally) */
+  __attribute__((weak)) unsigned long long (*g_dr_verif_clock)(void);
+#endif
+
   static dr_clock_t 
   dr_get_tsc() {
+#ifdef MYTH_VERIF
+    if (g_dr_verif_clock) return g_dr_verif_clock();
+#endif
     return dr_rdtsc();
   }
 
